@@ -165,22 +165,28 @@ func streamC02(c *Ctx) {
 // ---- C03: bulk update / delete over collections of many sizes ----
 
 func streamC03(c *Ctx) {
-	c.Rule = "collections of size 0,1,2,10,100 (thorough: 1000, 5000 with padding, spanning many bbolt pages) with 0-3 indexes; Update/UpdateFunc/Delete with criteria and sorts on the very field being rewritten, skip/limit with a total order, DropCollection + re-create; " +
+	c.Rule = "collections of size 0,1,2,10,100,1100 (thorough: also 2100, 5000 with padding, spanning many bbolt pages) with 0-3 indexes; Update/UpdateFunc/Delete with criteria and sorts on the very field being rewritten, skip/limit with a total order, DropCollection + re-create; " +
 		"updater invocations (documents seen, in order) compared with the model, raw key dump compared after every bulk operation; non-trivial = distinct bulk operation that selected at least one and not all documents"
 	dr := StartDriver(c.DriverBin)
 	defer dr.Close()
-	sizes := []int{0, 1, 2, 10, 100}
+	sizes := []int{0, 1, 2, 10, 100, 1100}
 	rounds := c.N(6, 20)
 	if !c.Quick() {
-		sizes = append(sizes, 1000, 5000)
+		sizes = append(sizes, 2100, 5000)
 	}
 	dm := Domain{IntsWithin2p53: true, NoNegTimes: true}
 	for _, be := range backendsAll {
 		im := NewImpl(be, c.Scratch)
 		for _, size := range sizes {
 			rr := rounds
+			if size >= 1000 && c.Quick() && be != backendsAll[int(c.Seed)%len(backendsAll)] {
+				continue // quick tier: the large collection on one backend (chosen by the seed)
+			}
 			if size >= 1000 {
 				rr = 2
+				if c.Quick() {
+					rr = 1
+				}
 			}
 			for round := 0; round < rr; round++ {
 				g := NewGen(c.Rng, dm)
@@ -221,6 +227,17 @@ func streamC03(c *Ctx) {
 					}
 				}
 				lines = append(lines, J{"k": "dump"})
+				if size >= 1000 {
+					// every document matches, and the rewrite takes each of them out of the selection (then back in,
+					// through a sort on the rewritten field): a bulk write that re-reads its selection while it
+					// applies it (paging, live cursors) visits some documents twice or never
+					all := J{"coll": hx("b"), "crit": J{"cmp": []interface{}{"le", hx("x"), J{"lit": encValue(int64(9))}}}}
+					lines = append(lines, opLine("update", J{"q": all, "upd": J{"setAll": []interface{}{[]interface{}{hx("x"), encValue(int64(100))}}}, "viaUpdate": 1}), J{"k": "dump"})
+					back := J{"coll": hx("b"), "crit": J{"cmp": []interface{}{"ge", hx("x"), J{"lit": encValue(int64(100))}}},
+						"sort": []interface{}{[]interface{}{hx("x"), -1}, []interface{}{hx("_id"), 1}}}
+					lines = append(lines, opLine("update", J{"q": back, "upd": J{"copy": []interface{}{hx("_id"), hx("x")}}}), J{"k": "dump"})
+					lines = append(lines, opLine("count", J{"q": J{"coll": hx("b"), "crit": J{"cmp": []interface{}{"ge", hx("x"), J{"lit": encValue(int64(100))}}}}}))
+				}
 				nOps := 4
 				for i := 0; i < nOps; i++ {
 					var q J
